@@ -19,9 +19,12 @@ Definition hseq (t : list event) : list event := filter is_hm (upto_quit (rev t)
 (* a session = handler bodies (handler id = position) + top-level actions; both loops start from their initial state *)
 Definition main_obs (bodies : list (list cmd)) (acts : list action) (fuel : nat) : list outcome * list event :=
   let '(os, st) := run_session (handler_prog bodies) fuel (map top_of acts) (init_state []) in (os, hseq (trace st)).
-Definition glib_obs (bodies : list (list cmd)) (acts : list action) (fuel : nat) : list outcome * list event :=
-  let '(os, st) := grun_session false (handler_prog bodies) fuel (map top_of acts) (ginit_state []) in
+Definition glib_obs_gen (mark_first : bool) (bodies : list (list cmd)) (acts : list action) (fuel : nat)
+  : list outcome * list event :=
+  let '(os, st) := grun_session mark_first (handler_prog bodies) fuel (map top_of acts) (ginit_state []) in
   (os, hseq (gtrace st)).
+(* the code as it is: the ticket is marked after the handlers *)
+Definition glib_obs := glib_obs_gen false.
 Definition no_fuel (os : list outcome) : bool := forallb (fun o => match o with OFuel => false | _ => true end) os.
 
 (* the two loops complete the session (neither interpreter ran out of fuel) and the observables differ *)
@@ -73,6 +76,9 @@ Definition w_i_acts : list action := [ACmds [CmEnqueue 1 (0)%Z None; CmRegHandle
 (* glib-close-last-level *)
 Definition w_j_bodies : list (list cmd) := [[CmCloseLoop; CmMark 1]].
 Definition w_j_acts : list action := [ACmds [CmRegHandler 1 0 0; CmEnqueue 1 (0)%Z None]; ARun].
+(* glib-mark-after-handlers *)
+Definition w_e_bodies : list (list cmd) := [[CmCloseLoop]; [CmRaise]; [CmCloseLoop; CmProcess (Some 1); CmMark 1]].
+Definition w_e_acts : list action := [ACmds [CmRegHandler 1 0 0; CmRegHandler 1 1 0; CmRegHandler 2 2 0; CmEnqueue 1 (0)%Z None]; ACmds [CmNewLoop 2 (0)%Z None]; ARun].
 (* scheduler scenario: replace_screen *)
 Definition s_replace_screen_bodies : list (list cmd) := [[CmIfCount 1 [CmRegSource 100; CmRegSource 100; CmEnqueue 1 (0)%Z (Some 50)] [CmRegSource 101; CmRegSource 101; CmEnqueue 2 (0)%Z (Some 101)]]; [CmExit]].
 (* scheduler scenario: switch_screen *)
@@ -136,6 +142,17 @@ Lemma refuted_handlers_bound_at_enqueue : differ_handlers w_i_bodies w_i_acts 20
 Proof. by_computation. Qed.
 Lemma refuted_close_last_level : differ_handlers w_j_bodies w_j_acts 200.
 Proof. by_computation. Qed.
+
+(* (e) the ticket is marked after the handlers in GLibEventLoop (before them in MainLoop).  That order is observable
+   only when an exception leaves _run_handlers between the handlers and the mark, which needs the level stack to be
+   empty (close_loop at level 0): on this session the GLib model as it is blocks for ever in a wait that the
+   counterfactual mark-first variant would end; MainLoop differs from both (it already differs by F9(h), F9(j)). *)
+Lemma refuted_mark_after_handlers :
+  glib_obs w_e_bodies w_e_acts 200 = ([ONormal; OBlocked], [EHandler 2 1 0; EHandler 0 0 0; EHandler 1 0 0]) /\
+  glib_obs_gen true w_e_bodies w_e_acts 200 =
+    ([ONormal; ONormal; OThrow XError], [EHandler 2 1 0; EHandler 0 0 0; EHandler 1 0 0; EMark 1]) /\
+  differ_handlers w_e_bodies w_e_acts 200.
+Proof. split; [vm_compute; reflexivity | split; [vm_compute; reflexivity | by_computation]]. Qed.
 
 (* the full statement of C20 is false of the code as it is *)
 Lemma not_identical :
